@@ -106,8 +106,36 @@ def _rt_cfgs(tier):
 
 def _parse(vcfg):
     cfg, v = split_variant(vcfg)
-    lay, n = v.split(".")
+    lay, n = v.split(".")[:2]
     return cfg, LAYOUTS[lay], int(n)
+
+
+def pair_for(vcfg):
+    """variant suffix ".u": the pair has been USED in training mode (state moved off its initial value) and is then put in
+    eval() and reset - the property's 'after a state reset' must hold whatever the objects did before"""
+    cfg, v = split_variant(vcfg)
+    if not v.endswith(".u"):
+        return fresh_pair(cfg)
+    mod, dem = fresh_pair(cfg)
+    mod.train()
+    dem.train()
+    b = getattr(mod, "bits_per_symbol", 2)
+    # 3 symbols (odd: pi/4-QPSK ends on the rotated constellation), batched, so that the batched state update is the one that
+    # ran; the pattern is chosen among a few so that the carried state really left its initial value (cover clause below)
+    moved = False
+    for pat in ([1] * b, [0] * (b - 1) + [1], [1] + [0] * (b - 1)):
+        prior = torch.tensor(([1, 0] * b)[: 2 * b] + pat, dtype=torch.float32).reshape(1, -1)
+        with torch.no_grad():
+            dem(mod(prior))
+        moved = not bool(_state_is_reset(mod))
+        if moved:
+            break
+    mod.eval()
+    dem.eval()
+    mod.reset_state()
+    dem.reset_state()
+    mod._vk_state_moved = moved
+    return mod, dem
 
 
 def _eq_complex(a, b):
@@ -250,7 +278,7 @@ def _dpsk_cfgs(tier):
             names = ["1d.2", "B1.2"] + (["1d.3", "B2.2"] if tier == "thorough" else [])
         else:
             names = ["1d.2"] + (["B1.2", "1d.3"] if tier == "thorough" else [])
-        out += _variants([c], names)
+        out += _variants([c], names + [names[-1] + ".u"])
     return out
 
 
@@ -258,7 +286,9 @@ def _dpsk_cfgs(tier):
 def dpsk_roundtrip(ctx, vcfg):
     """all ordered pairs / triples of symbols: every bit pattern is one path (torch.angle runs on concrete data)"""
     cfg, lead, n = _parse(vcfg)
-    mod, dem = fresh_pair(cfg)
+    mod, dem = pair_for(vcfg)
+    if hasattr(mod, "_vk_state_moved"):
+        ctx.ensure("cover.state_had_left_its_initial_value_before_reset", mod._vk_state_moved)
     b = mod.bits_per_symbol
     sbits = ctx.bits("bits", lead + (n * b,))
     bits, vals = _concretise(ctx, sbits)
@@ -349,13 +379,15 @@ def dpsk_step(ctx, vcfg):
 
 # ------------------------------------------------------------------------------------------------ OQPSK
 def _oq_cfgs(tier):
-    return _variants(mods.catalogue(tier, families=("oqpsk",)), ["1d.1", "1d.2", "1d.3", "B1.2", "B2.3"])
+    return _variants(mods.catalogue(tier, families=("oqpsk",)), ["1d.1", "1d.2", "1d.3", "B1.2", "B2.3", "1d.3.u", "B2.3.u"])
 
 
 @obligation("C05.oqpsk_roundtrip", function=F_OQPSK, configs=_oq_cfgs, max_paths=64, timeout_ms=60000, crosscheck=2)
 def oqpsk_roundtrip(ctx, vcfg):
     cfg, lead, n = _parse(vcfg)
-    mod, dem = fresh_pair(cfg)
+    mod, dem = pair_for(vcfg)
+    if hasattr(mod, "_vk_state_moved"):
+        ctx.ensure("cover.state_had_left_its_initial_value_before_reset", mod._vk_state_moved)
     bits = ctx.bits("bits", lead + (2 * n,))
     y = ctx.call(mod.forward, bits)
     ctx.ensure("modulates", y.ok, note=repr(y.exc) if not y.ok else "")
@@ -401,13 +433,15 @@ def oqpsk_structure(ctx, vcfg):
 
 # ------------------------------------------------------------------------------------------------ pi/4-QPSK
 def _pi4_cfgs(tier):
-    return _variants(mods.catalogue(tier, families=("pi4qpsk",)), ["1d.1", "1d.2", "1d.3", "B1.1", "B1.2", "B2.3"])
+    return _variants(mods.catalogue(tier, families=("pi4qpsk",)), ["1d.1", "1d.2", "1d.3", "B1.1", "B1.2", "B2.3", "B1.3.u", "B2.3.u"])
 
 
 @obligation("C05.pi4qpsk_roundtrip", function=F_PI4, configs=_pi4_cfgs, max_paths=256, timeout_ms=60000, crosscheck=2)
 def pi4_roundtrip(ctx, vcfg):
     cfg, lead, n = _parse(vcfg)
-    mod, dem = fresh_pair(cfg)
+    mod, dem = pair_for(vcfg)
+    if hasattr(mod, "_vk_state_moved"):
+        ctx.ensure("cover.state_had_left_its_initial_value_before_reset", mod._vk_state_moved)
     bits = ctx.bits("bits", lead + (2 * n,))
     y = ctx.call(mod.forward, bits)
     ctx.ensure("modulates", y.ok, note=repr(y.exc) if not y.ok else "")
